@@ -94,13 +94,19 @@ def run(ck):
         "cached counter for LAST (R06.2); no `is (not) None` test on a field that no code ever sets to None (R06.3); after a completed message "
         "the same analysis is repeated from the resulting state and no fragment may be spliced or delivered again (R06.4); the cache and the "
         "queue hold decoded copies, never the caller's object (R06.5); the delivered type is the LAST fragment's reserved byte and the delivered "
-        "bytes are cache + fragment in that order (R06.7). These are necessary conditions; enumeration of delivery histories is another family.")
+        "bytes are cache + fragment in that order (R06.7). R06.9: every public sender that builds the frame itself (multicast(), the mesh write()) "
+        "sends under a header constructed for that message - a fresh frame id - or the caller's own, never the header the shared buffer "
+        "happened to hold. These are necessary conditions; enumeration of delivery histories is another family.")
     ck.not_decided = ["exhaustive / randomised delivery patterns (enumeration of histories): the rules are necessary, not sufficient"]
     agg = Agg(ck)
     nsc, nre = _core(ck, agg)
     # sender side of R06.7: numbering, type in the last fragment, type restored on every exit (shared with C11/R11.6)
     from . import c11
     c11.fragment_loop(ck, agg, rule="R06.7")
+    # R06.9 (sender side of "streams are told apart by origin and frame id"): every message a public sender builds travels under a frame id
+    # of its own - run with the sender gate of C05 (R05.2)
+    from . import c05, net
+    c05.validate(ck, agg, net.NetNode(ck, "rf24_network", "RF24Network"))
     agg.flush()
     ck.floor("R06", "fragment kinds x cache states", nsc, 5)
     ck.floor("R06.4", "re-delivery scenarios after completion", nre, 2)
